@@ -23,7 +23,7 @@ func init() {
 			"(R-TYPEERR / R-ARITY / R-IFACEEQ / R-DIV0 as in C18) for all built-ins; (R-NILNIL) at every return of Compile either the error is non-nil or the *Expr is a fresh allocation; (R-NOFAIL) no panic, os.Exit, log.Fatal, go statement in the closure and optimizers have no failure channel; (R-STATELESS-TABLE) as in C10. " +
 			"NOT decided: termination of the lexer/parser loops and recursion, 'positions strictly increasing' (depends on scIdx > i, a table value), blocking on an unconsumed EventChan (a precondition of event mode), everything in class 2. (R-ERRDROP) no return of the API closure yields a nil error on the non-nil edge of an error obtained from a call: a swallowed parser error is how a nil node reaches a dereference, which the ledger itself does not model.",
 		Run:       runC06,
-		Witnesses: append(append([]Witness{}, delWitnessesC06...), c06Witnesses...),
+		Witnesses: append(append(append([]Witness{}, delWitnessesC06...), capturedLenWitnesses...), c06Witnesses...),
 	})
 }
 
@@ -98,6 +98,9 @@ type panicSite struct {
 }
 
 func runC06(w *World, r *Report) {
+	// NewCtxFromVars chooses the fetcher from the CALLER's options: the source text must not be able to switch on
+	// undefined-variable mode (whose marker key the slice-backed fetcher cannot index) or any option but the optimisations
+	ruleDirEq(w, r)
 	const rule = "R-PANIC"
 	r.Rule(rule, "panic-site ledger: every instruction that can panic in the API closure is discharged by a local guard rule, listed as invariant-governed (not decided), covered by a frozen-table entry with its reason, or reported", 150)
 	set := c06Closure(w, r, rule)
